@@ -72,3 +72,24 @@ Theorem c17_item_hooks_guarded_are_source :
   In ("c.store.callbacks.AfterItemRead", [GVar "c"; GVar "i"]) (calls_a 400 (body "itemLoc.read")).
 Proof. exact DecCallbacks.item_hooks_guarded. Qed.
 Print Assumptions c17_item_hooks_guarded_are_source.
+
+(* custom item allocation may recycle an item's buffers at count zero: the out-of-order guard of ascending visits compares
+   with a COPY of the previously delivered key, not with the released item (repaired defect 2651ef4) *)
+From GK Require Import DecRecycle.
+Theorem c17_visit_guard_keeps_a_copy_is_source :
+  body "<lit:Collection.VisitItemsAscendEx#1>" =
+    [SIf [] (GBin "&&" (GVar "havePrevVisitKey")
+                (GBin ">" (GCall "t.compare" [GVar "prevVisitKey"; GVar "i.Key"]) (GInt 0)))
+       [SAssign [GVar "errCheckedVisitor"] "="
+          [GCall "fmt.Errorf"
+             [GBin "+" (GLit """corrupted / out-of-order index""")
+                (GLit """, key: %s vs %s, coll: %p, collName: %s, store: %p, storeFile: %v""");
+              GCall "string" [GVar "prevVisitKey"]; GCall "string" [GVar "i.Key"]; GVar "t";
+              GVar "t.name"; GVar "t.store"; GVar "t.store.file"]];
+        SReturn [GVar "false"]] [];
+     SAssign [GVar "prevVisitKey"] "="
+       [GCall "append" [GCall "[:]" [GVar "prevVisitKey"; GNil; GInt 0]; GVar "i.Key"]];
+     SAssign [GVar "havePrevVisitKey"] "=" [GVar "true"];
+     SReturn [GCall "visitor" [GVar "i"; GVar "depth"]]].
+Proof. exact DecRecycle.visit_guard_keeps_a_copy. Qed.
+Print Assumptions c17_visit_guard_keeps_a_copy_is_source.
